@@ -18,6 +18,9 @@ func NewNode() *Node { return &Node{KV: map[string][]byte{}, Kids: map[string]*N
 
 // MergeFold is the reference semantics of the harness merge operator.
 func MergeFold(existing, operand []byte) []byte {
+	if len(operand) == 1 && operand[0] == '~' {
+		return []byte{} // the "clear" operand: the key stays, with an empty value
+	}
 	out := make([]byte, 0, len(existing)+1+len(operand))
 	out = append(out, existing...)
 	out = append(out, '|')
